@@ -20,4 +20,5 @@ if [ "$1" = race ]; then
   go build -race -overlay $B/overlay.json -tags verif -o $B/bin/cqmc-race ./cmd/cqmc
 else
   go build -overlay $B/overlay.json -tags verif -o $B/bin/cqmc ./cmd/cqmc
+  go build -o $B/bin/cqpure ./cmd/cqpure
 fi
